@@ -611,14 +611,39 @@ func (w *World) settingsOptions(P string, r *Roles) {
 		return
 	}
 	// three MakeMap stored into the settings alloc; each ContextApply called with the address of it
+	// (in Exec itself or in a constructor helper it calls before the evaluation starts)
 	var settings *ssa.Alloc
-	allInstrs(exec, func(in ssa.Instruction) {
-		if al, ok := in.(*ssa.Alloc); ok {
-			if n, ok := al.Type().(*types.Pointer).Elem().(*types.Named); ok && n.Obj().Name() == "ContextSettings" {
-				settings = al
-			}
+	nSettings := 0
+	var setupFns []*ssa.Function
+	for g := range staticReach(exec, func(x *ssa.Function) bool { return fnPkgKey(x) == "exec" && x != r.ExecContext }) {
+		if g == r.ExecContext {
+			continue
 		}
-	})
+		setupFns = append(setupFns, g)
+	}
+	sort.Slice(setupFns, func(i, j int) bool { return setupFns[i].String() < setupFns[j].String() })
+	for _, g := range setupFns {
+		allInstrs(g, func(in ssa.Instruction) {
+			if al, ok := in.(*ssa.Alloc); ok {
+				if n, ok := al.Type().(*types.Pointer).Elem().(*types.Named); ok && n.Obj().Name() == "ContextSettings" && len(storesInto(al)) >= 3 {
+					hasMake := false
+					for _, st := range storesInto(al) {
+						if _, isMM := st.Val.(*ssa.MakeMap); isMM {
+							hasMake = true
+						}
+					}
+					if hasMake {
+						settings = al
+						nSettings++
+					}
+				}
+			}
+		})
+	}
+	if nSettings > 1 {
+		w.undecided(P, "R11.6", "Exec settings", exec.Pos(), "more than one ContextSettings is built on the way into the evaluation")
+		settings = nil
+	}
 	if settings == nil {
 		w.undecided(P, "R11.6", "Exec settings", exec.Pos(), "no local ContextSettings")
 	} else {
@@ -632,12 +657,13 @@ func (w *World) settingsOptions(P string, r *Roles) {
 			}
 		}
 		applied := false
-		allInstrs(exec, func(in ssa.Instruction) {
+		sfn := settings.Parent()
+		allInstrs(sfn, func(in ssa.Instruction) {
 			c, ok := in.(*ssa.Call)
 			if !ok || staticCallee(c) != nil || c.Call.IsInvoke() {
 				return
 			}
-			if len(c.Call.Args) == 1 && c.Call.Args[0] == ssa.Value(settings) && loopBlocks(exec)[c.Block()] {
+			if len(c.Call.Args) == 1 && c.Call.Args[0] == ssa.Value(settings) && loopBlocks(sfn)[c.Block()] {
 				applied = true
 			}
 		})
